@@ -13,6 +13,7 @@
 import YtkProofs.Equal
 import YtkProofs.Heap
 import YtkProofs.GapEqualPlain
+import YtkProofs.FuncsDomEquals
 
 namespace Ytk.C05
 
@@ -271,5 +272,90 @@ theorem nonvacuous_equals_iff_plain :
     equals (.cont []) (.list []) = false ∧ encodeNode (.cont []) ≠ encodeNode (.list []) ∧
     equals (.list []) Node.null = false ∧ equals exDoc exDoc = true ∧ encodeNode exDoc = encodeNode exDoc := by
   decide
+
+end Ytk.C05
+
+/-! ## xlate7d: the REGENERATED translation of `Equals` / `Clone` (dom/leaf.go, dom/list.go, dom/container.go)
+
+  `FuncsDom.leafEquals / listEquals / containerEquals / leafClone / listClone / containerClone` are rewritten from
+  the Go method bodies on every run (extract/translate_dom.go); `FuncsDom.Equals` / `FuncsDom.Clone` are the
+  dynamic dispatch of the interface calls `v.Equals(o)` / `v.Clone()` over EVERY implementation of `dom.Node`
+  found in the package (extract/translate_dispatch.go).  The theorems below say: for all inputs the translation
+  equals the hand-written `equals` / `clone` that every theorem above is about. -/
+namespace Ytk.C05
+open Ytk.Generated
+
+/-- `x.Equals(y)` through the interface, for ALL nodes `x`, `y` (no validity hypothesis) and for the nil argument -/
+theorem Equals_generated_eq_model (x y : Node) :
+    FuncsDom.Equals x (some y) = .ok (equals x y) ∧ FuncsDom.Equals x none = .ok (equalsNil x) :=
+  ⟨FuncsDomEquals.Equals_generated_eq_model x (some y), FuncsDomEquals.Equals_generated_eq_model x none⟩
+
+/-- `(*containerImpl).Equals` — also the method of `*containerBuilderImpl` (embedding; the generator checks it) -/
+theorem containerEquals_generated_eq_model (c : List (String × Node)) (y : Node) :
+    FuncsDom.containerEquals c (some y) = .ok (equals (.cont c) y) ∧ FuncsDom.containerEquals c none = .ok false :=
+  ⟨FuncsDomEquals.containerEquals_generated_eq_model c (some y), FuncsDomEquals.containerEquals_generated_eq_model c none⟩
+
+theorem listEquals_generated_eq_model (l : List Node) (y : Node) :
+    FuncsDom.listEquals l (some y) = .ok (equals (.list l) y) ∧ FuncsDom.listEquals l none = .ok false :=
+  ⟨FuncsDomEquals.listEquals_generated_eq_model l (some y), FuncsDomEquals.listEquals_generated_eq_model l none⟩
+
+theorem leafEquals_generated_eq_model (s : Scalar) (y : Node) :
+    FuncsDom.leafEquals s (some y) = .ok (equals (.leaf s) y) ∧ FuncsDom.leafEquals s none = .ok false :=
+  ⟨FuncsDomEquals.leafEquals_eq s (some y), FuncsDomEquals.leafEquals_eq s none⟩
+
+/-- the property's first sentence about the TRANSLATED code: on nodes constructible through the API the generated
+    `Equals` returns true exactly for equal nodes, never panics, never runs out of fuel -/
+theorem Equals_generated_iff (x y : Node) (hx : x.Valid) (hy : y.Valid) :
+    FuncsDom.Equals x (some y) = .ok true ↔ x = y := by
+  rw [(Equals_generated_eq_model x y).1]
+  constructor
+  · intro h; exact (equals_iff x y hx hy).mp (by injection h)
+  · intro h; rw [(equals_iff x y hx hy).mpr h]
+
+/-- `x.Clone()` through the interface, for every node in the model's representation of Go maps (`WF`: strictly
+    sorted keys in every container — the translated loop REBUILDS the map key by key) -/
+theorem Clone_generated_eq_model (x : Node) (h : x.WF) : FuncsDom.Clone x = .ok (clone x) :=
+  FuncsDomEquals.Clone_generated_eq_model x h
+
+theorem containerClone_generated_eq_model (c : List (String × Node)) (h : (Node.cont c).WF) :
+    FuncsDom.containerClone c = .ok (clone (.cont c)) :=
+  FuncsDomEquals.containerClone_generated_eq_model c h
+
+theorem listClone_generated_eq_model (l : List Node) (h : (Node.list l).WF) :
+    FuncsDom.listClone l = .ok (clone (.list l)) :=
+  FuncsDomEquals.listClone_generated_eq_model l h
+
+theorem leafClone_generated_eq_model (s : Scalar) : FuncsDom.leafClone s = .ok (clone (.leaf s)) := rfl
+
+/-- … so the generated clone of a representable node IS the node (`clone_eq` for the translated code) -/
+theorem Clone_generated_id (x : Node) (h : x.WF) : FuncsDom.Clone x = .ok x := by
+  rw [Clone_generated_eq_model x h, clone_id]
+
+/-- `WF` is needed, and only as a matter of representation: on an association list that is not a Go map (keys out of
+    order) the translated loop `c2.children[k] = v.Clone()` yields the sorted map, the hand-written `clone` keeps the list -/
+theorem Clone_generated_needs_wf_counterexample :
+    FuncsDom.Clone (.cont [("b", Node.null), ("a", Node.null)]) = .ok (.cont [("a", Node.null), ("b", Node.null)]) ∧
+    clone (.cont [("b", Node.null), ("a", Node.null)]) = .cont [("b", Node.null), ("a", Node.null)] := by
+  decide
+
+/-- the translated code RUN: nested containers and lists, a nil argument, a kind mismatch, a missing key -/
+theorem nonvacuous_Equals_generated :
+    FuncsDom.Equals exDoc (some exDoc) = .ok true ∧ FuncsDom.Equals exDoc none = .ok false ∧
+    FuncsDom.Equals exDoc (some (.list [])) = .ok false ∧
+    FuncsDom.Equals (.cont [("a", .leaf ⟨"int", "1"⟩)]) (some (.cont [("b", .leaf ⟨"int", "1"⟩)])) = .ok false ∧
+    FuncsDom.Equals (.list [.leaf ⟨"int", "1"⟩, .leaf ⟨"int", "2"⟩]) (some (.list [.leaf ⟨"int", "1"⟩, .leaf ⟨"int", "3"⟩])) = .ok false ∧
+    FuncsDom.Clone exDoc = .ok exDoc := by
+  decide
+
+end Ytk.C05
+
+/-! ## xlate7d: `SameAs` of the three kinds and its method table, regenerated -/
+namespace Ytk.C05
+open Ytk.Generated
+
+/-- `x.SameAs(y)` through the interface is the model's `sameAs` (kind equality); `false` for nil -/
+theorem SameAs_generated_eq_model (x y : Node) :
+    FuncsDom.SameAs x (some y) = .ok (sameAs x y) ∧ FuncsDom.SameAs x none = .ok false := by
+  cases x <;> cases y <;> exact ⟨rfl, rfl⟩
 
 end Ytk.C05
